@@ -290,10 +290,18 @@ class FaultyPoints(object):
     def __init__(self, world, tx, target, k, fault):
         self.world, self.tx, self.target, self.k, self.fault = world, tx, target, k, fault
         self.sched, self.count, self.fired_total, self.max_count, self.site = None, 0, 0, 0, 'none'
+        self.active = False
+    def wrap(self, body):
+        """only the driver calls made inside the body are numbered / faulted (not the engine's clean-up)"""
+        def wrapped(t):
+            self.active = True
+            try: return body(t)
+            finally: self.active = False
+        return wrapped
     def __call__(self, kind, sql, con):
         s = self.world.sched
         if s is not self.sched: self.sched, self.count = s, 0
-        if s is not None and s.me() == self.target:
+        if s is not None and self.active and s.me() == self.target:
             i = self.count
             self.count = i + 1
             self.max_count = max(self.max_count, self.count)
@@ -336,7 +344,7 @@ def tx_calls_of_a(aname):
     from vf.engines import tx
     w = tx_world()
     fp = FaultyPoints(w, tx, 0, None, None)
-    tx.Explorer(w, [TX_A[aname]], observe=False, points=fp).run()
+    tx.Explorer(w, [fp.wrap(TX_A[aname])], observe=False, points=fp).run()
     return fp.max_count
 
 def run_schedules(task):
@@ -345,7 +353,7 @@ def run_schedules(task):
     sub = core.Sub()
     w = tx_world()
     fp = FaultyPoints(w, tx, 0, k, fault)
-    bodies = [TX_A[aname], body_b] + ([body_c] if nthreads == 3 else [])
+    bodies = [fp.wrap(TX_A[aname]), body_b] + ([body_c] if nthreads == 3 else [])
     ex = tx.Explorer(w, bodies, observe=False, points=fp)
     outcomes = set()
     def visit(x):
@@ -353,16 +361,20 @@ def run_schedules(task):
         outcomes.add('%s|%d|%s|%s' % (aname, nthreads, res[0][0] if res[0] else None, x.deadlock))
         comps = []
         if x.deadlock: comps.append('deadlock')
+        failed = False
         for i in range(1, len(bodies)):
-            if res[i] is None or res[i][0] != 'ok': comps.append('unfaulted-session-failed:%s' % (res[i][1] if res[i] and len(res[i]) > 1 else res[i],))
-        if not x.deadlock:
+            if res[i] is None or res[i][0] != 'ok':
+                failed = True
+                text = ' '.join(str(v) for v in (res[i] or ()))
+                comps.append('unfaulted-session-failed:%s' % ('database-is-locked' if 'database is locked' in text else (res[i][1] if res[i] and len(res[i]) > 1 else res[i])))
+        if not x.deadlock and not failed:
             snap = w.dump()
             if not any(r[1] == 'b' for r in snap['Group']): comps.append('unfaulted-session-row-missing')
             if nthreads == 3 and not any(r[0] == 2 and r[1] == 'c' for r in snap['Person']): comps.append('unfaulted-session-row-missing')
         if x.waits: sub.count('schedules_with_a_thread_waiting_for_the_lock')
         if res[0] and res[0][0] == 'exc': sub.count('schedules_in_which_the_fault_ended_session_A')
         for comp in comps:
-            sub.violation('sqlite|schedule|%s|A=%s|at=%s' % (comp.split(':')[0], aname, fp.site),
+            sub.violation('sqlite|schedule|%s|at=%s' % (comp, fp.site),
                           dict(a=aname, threads=nthreads, k=k, fault=fault, choices=list(x.choices), results=res, trace=x.describe(40)),
                           'threads=%d, A=%s with %s at its driver call %s, schedule %s: %s' % (nthreads, aname, fault, k, list(x.choices), comps))
     stats = ex.explore(bound, visit)
@@ -383,7 +395,10 @@ def run(ctx):
         from vf.engines import tx
         ncalls = {a: tx_calls_of_a(a) for a in TX_A}
         for a in sorted(TX_A):
-            for nthreads, bound in ((2, None if not ctx.quick else 2), (3, 1 if ctx.quick else 2)):
+            configs = [(2, 2 if ctx.quick else None)]
+            if a != 'control': configs.append((3, 1 if ctx.quick else 2))
+            elif not ctx.quick: configs.append((3, 1))
+            for nthreads, bound in configs:
                 for k in range(ncalls[a]):
                     for fault in (('operational',) if ctx.quick else fx.FAULT_KINDS):
                         items.append(('sched', (a, nthreads, k, fault, bound)))
@@ -417,7 +432,9 @@ def run(ctx):
     ctx.cov['fault_part'] = dict(executions=executions, plans_fired=fired, distinct_outcomes=len(outcomes))
     ctx.cov['schedule_part'] = dict(executions=sched_exec, transitions=transitions, executions_in_which_the_fault_fired=sched_fired,
                                     distinct_outcomes=len(sched_outcomes),
-                                    bounds='2 threads: %s; 3 threads: preemption bound %d' % ('all interleavings' if not ctx.quick else 'preemption bound 2', 1 if ctx.quick else 2))
+                                    bounds='thread 0 in {optimistic, immediate, commit/rollback-inside} x fault at each of its driver calls; 2 threads: %s; '
+                                           '3 threads: preemption bound %s' % ('all interleavings' if not ctx.quick else 'preemption bound 2',
+                                                                              '1 (optimistic, immediate)' if ctx.quick else '2 (1 for the commit/rollback-inside body)'))
     ctx.cov['bounds'] = ('%d session shapes x {cold, warm pool} x every driver-call index x 3 error classes + lost commit acknowledgement'
                          % len(SHAPES) + ('' if ctx.quick else ' + every fault pair k1<k2 x 9 class combinations'))
     ctx.assume('SQLite provider only (the transaction lock exists only there); faults replace the driver call; timeout=0 so that SQLite busy '
@@ -433,7 +450,7 @@ def replay(ctx, case):
         from vf.engines import tx
         w = tx_world()
         fp = FaultyPoints(w, tx, 0, case['k'], case['fault'])
-        bodies = [TX_A[case['a']], body_b] + ([body_c] if case['threads'] == 3 else [])
+        bodies = [fp.wrap(TX_A[case['a']]), body_b] + ([body_c] if case['threads'] == 3 else [])
         x = tx.Explorer(w, bodies, observe=False, points=fp).run(case['choices'])
         print('\n'.join(x.describe(80))); print('results', x.results, 'deadlock', x.deadlock)
         return not x.deadlock and all(r and r[0] == 'ok' for r in x.results[1:])
